@@ -27,6 +27,7 @@ import PPModel.Mod.PRHeap
   objects whose token tree has depth ≤ fuel (`TIn … fuel o`), for every fuel.
 -/
 namespace PP.PRHeap
+open PP.PyDict
 
 variable {α : Type}
 
@@ -73,6 +74,97 @@ def chainHeap (d : Nat) : Heap String :=
     occs := fun i => if i = 3 * d + 3 then [(.ref 2, 0)] else [],
     objs := fun i => ⟨i - 2, i - 1, []⟩,
     next := 3 * d + 4 }
+
+/-! ### `copy.deepcopy(r)` / `pickle.loads(pickle.dumps(r))` of nested results
+
+  What the standard library does with the class's protocol (CPython `copy._reconstruct`, `copy._deepcopy_list`,
+  `copy._deepcopy_dict`, `copyreg.__newobj__`; pickle's save_reduce/NEWOBJ/BUILD have the same order and the same
+  memo discipline), for `x` a `ParseResults` not yet in the memo:
+
+      args  = deepcopy(x.__getnewargs__(), memo)     -- results.py:774 `(self._toklist, self._name)`: every nested
+                                                      --   ParseResults in the token list is copied (recursively, whole)
+      y     = ParseResults.__new__(cls, *args)       -- results.py:161-180: `list(toklist)`, `dict()`
+      memo[id(x)] = y
+      state = deepcopy(x.__getstate__(), memo)       -- results.py:759-768: `self._toklist[:]` (all memo hits now) and
+                                                      --   `self._tokdict.copy()`: every occurrence list is copied
+                                                      --   (memoised by identity), and with it every NAMED value
+      y.__setstate__(state)                          -- results.py:770-772: installs the state's list and dict
+
+  The model keeps two memo tables (objects; occurrence-list cells).  The temporary lists/dicts that only the memo can
+  reach (`deepcopy` of `x._toklist` itself, `self._toklist[:]`, `self._tokdict.copy()`) are not allocated; the list
+  and dict made by `__new__` are (they become garbage at `__setstate__`, as in `copyModule`).  `_ParseResultsWithOffset`
+  records (results.py:22-36) are immutable pairs here.  Out of fuel the model returns the object itself (never
+  reached under the depth hypothesis `FD` of the theorem). -/
+
+structure DS (α : Type) where
+  h : Heap α
+  mo : List (Nat × Nat)      -- memo: original object ↦ its copy
+  mc : List (Nat × Nat)      -- memo: original occurrence-list cell ↦ its copy
+
+def mget : List (Nat × Nat) → Nat → Option Nat
+  | [], _ => none
+  | (k, v) :: m, i => if k = i then some v else mget m i
+
+/-- deep copy of a list of values (`copy._deepcopy_list`), left to right -/
+def dvals (rec : DS α → Nat → DS α × Nat) : DS α → List (HVal α) → DS α × List (HVal α)
+  | s, [] => (s, [])
+  | s, .atom a :: ts => ((dvals rec s ts).1, .atom a :: (dvals rec s ts).2)
+  | s, .ref n :: ts => ((dvals rec (rec s n).1 ts).1, .ref (rec s n).2 :: (dvals rec (rec s n).1 ts).2)
+
+/-- deep copy of the records of an occurrence list -/
+def doccs (rec : DS α → Nat → DS α × Nat) : DS α → List (HVal α × Int) → DS α × List (HVal α × Int)
+  | s, [] => (s, [])
+  | s, (.atom a, p) :: ts => ((doccs rec s ts).1, (.atom a, p) :: (doccs rec s ts).2)
+  | s, (.ref n, p) :: ts => ((doccs rec (rec s n).1 ts).1, (.ref (rec s n).2, p) :: (doccs rec (rec s n).1 ts).2)
+
+/-- deep copy of one occurrence list (a Python list: memoised by identity) -/
+def deepOcc (rec : DS α → Nat → DS α × Nat) (s : DS α) (cell : Nat) : DS α × Nat :=
+  match mget s.mc cell with
+  | some c => (s, c)
+  | none =>
+    let r := doccs rec s (s.h.occs cell)
+    ({ h := { r.1.h with occs := upd r.1.h.occs r.1.h.next r.2, next := r.1.h.next + 1 },
+       mo := r.1.mo, mc := (cell, r.1.h.next) :: r.1.mc }, r.1.h.next)
+
+/-- deep copy of a name table (`copy._deepcopy_dict`) -/
+def ddict (rec : DS α → Nat → DS α × Nat) : DS α → PP.PyDict.Dict Nat → DS α × PP.PyDict.Dict Nat
+  | s, [] => (s, [])
+  | s, (k, cell) :: es =>
+    ((ddict rec (deepOcc rec s cell).1 es).1, (k, (deepOcc rec s cell).2) :: (ddict rec (deepOcc rec s cell).1 es).2)
+
+/-- `y = ParseResults.__new__(cls, toklist, name)` (results.py:161-180: `list(toklist)`, `dict()`), then
+    `memo[id(x)] = y` -/
+def newObj (s : DS α) (o : Nat) (toks : List (HVal α)) (all : List String) : DS α × Nat :=
+  ({ h := { s.h with lists := upd s.h.lists s.h.next toks, dicts := upd s.h.dicts (s.h.next + 1) [],
+                     objs := upd s.h.objs (s.h.next + 2) ⟨s.h.next, s.h.next + 1, all⟩, next := s.h.next + 3 },
+     mo := (o, s.h.next + 2) :: s.mo, mc := s.mc }, s.h.next + 2)
+
+/-- `y.__setstate__(state)` (results.py:770-772) with the deep-copied state's list and dict (two new cells) -/
+def setState (s : DS α) (c : Nat) (toks : List (HVal α)) (dict : Dict Nat) (all : List String) : DS α :=
+  { h := { s.h with lists := upd s.h.lists s.h.next toks, dicts := upd s.h.dicts (s.h.next + 1) dict,
+                    objs := upd s.h.objs c ⟨s.h.next, s.h.next + 1, all⟩, next := s.h.next + 2 },
+    mo := s.mo, mc := s.mc }
+
+/-- `copy.deepcopy` of object `o` with memo (see the section comment) -/
+def deepObjN : Nat → DS α → Nat → DS α × Nat
+  | 0, s, o => (s, o)
+  | f + 1, s, o =>
+    match mget s.mo o with
+    | some c => (s, c)
+    | none =>
+      -- args = deepcopy((self._toklist, self._name))
+      let a := dvals (deepObjN f) s (s.h.lists (s.h.objs o).lst)
+      -- y = __new__(cls, *args); memo[id(x)] = y
+      let y := newObj a.1 o a.2 (s.h.objs o).all
+      -- state = deepcopy(x.__getstate__())
+      let t := dvals (deepObjN f) y.1 (y.1.h.lists (s.h.objs o).lst)
+      let d := ddict (deepObjN f) t.1 (t.1.h.dicts (s.h.objs o).dct)
+      -- y.__setstate__(state)
+      (setState d.1 y.2 t.2 d.2 (s.h.objs o).all, y.2)
+
+/-- `copy.deepcopy(o)` / pickle round trip of `o` with a fresh memo -/
+def copyModuleDeep (f : Nat) (h : Heap α) (o : Nat) : Heap α × Nat :=
+  ((deepObjN f ⟨h, [], []⟩ o).1.h, (deepObjN f ⟨h, [], []⟩ o).2)
 
 /-- the objects met by following token 0, `k` times, from `o` (with `o` itself first) -/
 def tokPath (h : Heap α) : Nat → Nat → List Nat
